@@ -1145,12 +1145,24 @@ func (app *App) ErrorHandler(ctx Ctx, err error) error {
 	path := ctx.Path()
 	for prefix, subApp := range app.mountFields.appList {
 		// only sub-apps that configured their own handler compete
-		if prefix == "" || subApp.configured.ErrorHandler == nil || !strings.HasPrefix(path, prefix) {
+		if prefix == "" || subApp.configured.ErrorHandler == nil {
 			continue
 		}
-		// the prefix has to end on a segment boundary of the path
-		if len(path) > len(prefix) && prefix[len(prefix)-1] != '/' && path[len(prefix)] != '/' {
-			continue
+		if strings.ContainsAny(prefix, ":*+") {
+			// a parameterised mount prefix contains the paths that its pattern, continued by "/*", matches
+			var params [maxParams]string
+			parser := parseRoute(getGroupPath(prefix, "/*"))
+			if !parser.getMatch(path, path, &params, false) {
+				continue
+			}
+		} else {
+			if !strings.HasPrefix(path, prefix) {
+				continue
+			}
+			// the prefix has to end on a segment boundary of the path
+			if len(path) > len(prefix) && prefix[len(prefix)-1] != '/' && path[len(prefix)] != '/' {
+				continue
+			}
 		}
 		// innermost = longest prefix; distinct prefixes of one path differ in length,
 		// so the choice does not depend on the iteration order of the map
